@@ -4,7 +4,9 @@ C17 — object-graph model of Parameterized instances for `copy.deepcopy` / pick
 Modelled code (param/parameterized.py, as written):
   `Parameterized.__getstate__/__setstate__` (the watcher re-binding loop), `_m_caller`,
   `Parameterized.__init__` / `Parameters._update_deps` / `_watch_group` / `_resolve_dynamic_deps` for
-  one-level dependencies (`depends('p', watch=True)`, `depends('a.x', watch=True)`),
+  one-level dependencies (`depends('p', 'q', 'a.x', 'b.y', watch=True)`: one watcher per object that is
+  depended on, the `changed=` filter a dict {parameter name -> sub-paths} built from every dependency of
+  the group; assigning the root attribute of any dynamic dependency rebuilds ALL dynamic watchers of the method),
   `Parameter.__set__` (store, per-instance Parameter copy, `_update_deps`, dispatch with
   `onlychanged` and `_skip_event`), `Parameters.unwatch`, `_instantiated_parameter`.
 
@@ -53,7 +55,7 @@ inductive Dep
 
 structure MethodDef where
   name : String
-  dep : Dep
+  deps : List Dep
   deriving DecidableEq, Repr
 
 structure ClassDef where
@@ -78,7 +80,8 @@ structure Caller where
   kind : CKind
   owner : Nat
   method : String
-  changed : Option (List String)
+  /-- `changed=`: `None`, or a dict {name of the watched parameter -> sub-paths to compare | None} -/
+  changed : Option (List (String × Option (List String)))
   /-- identity of the `functools.partial` object (0 for bound methods, which compare structurally) -/
   pid : Nat
   deriving DecidableEq, Repr
@@ -122,7 +125,8 @@ inductive Err
 /-- `Parameterized.__setstate__`, the line that re-creates a method caller:
   * `always`  — the pinned source: `watcher_args[2] = _m_caller(self, fn._watcher_name)` for every caller;
   * `own`     — only when the copied caller's method belongs to the object being restored;
-  * `unbound` — only when the copied caller carries no bound method (never, for callers made by `_m_caller`). -/
+  * `unbound` — only when the copied caller carries no bound method (never, for callers made by `_m_caller`):
+                the current source (repair 04a1761). -/
 inductive Policy | always | own | unbound
   deriving DecidableEq, Repr
 
@@ -214,53 +218,110 @@ def World.unwatch (w : World) (wt : Watcher) : World :=
         | some l' => go (w.setObj wt.inst fun ob => { ob with watchers := insert ob.watchers n l' }) ns
   go w wt.names
 
-def mkCaller (w : World) (owner : Nat) (m : String) (changed : Option (List String)) : Caller × World :=
+def mkCaller (w : World) (owner : Nat) (m : String) (changed : Option (List (String × Option (List String)))) : Caller × World :=
   ({ kind := .mcaller, owner := owner, method := m, changed := changed, pid := w.nextPid },
    { w with nextPid := w.nextPid + 1 })
 
-/-- watchers for one `depends` method of `o`, as `_watch_group` installs them; returns the *dynamic* ones
-    -- src: Parameters._update_deps, _watch_group, _resolve_dynamic_deps, _resolve_mcs_deps -/
-def World.installDep (w : World) (o : Nat) (md : MethodDef) : World × List Watcher :=
-  match md.dep with
-  | .own p =>
-    let w := w.touchParam o p
-    let (c, w) := mkCaller w o md.name Option.none
-    (w.addWatcher { inst := o, fn := c, names := [p], precedence := -1 }, [])
-  | .sub a x =>
+def dedupS : List String → List String
+  | [] => []
+  | x :: xs => x :: (dedupS xs).filter (· ≠ x)
+
+def dedupN : List Nat → List Nat
+  | [] => []
+  | x :: xs => x :: (dedupN xs).filter (· ≠ x)
+
+/-- one resolved dependency (`PInfo`): parameter `name` of object `inst`; `sub`: the sub-path to compare
+when `name` is re-assigned (`None` for the parameter of the sub-object itself) -/
+structure Contribution where
+  inst : Nat
+  name : String
+  sub : Option String
+  deriving DecidableEq, Repr
+
+/-- `_resolve_mcs_deps(obj, [], [ddep])` for every dynamic dependency, in order: `'a.x'` with `obj.a` an
+object contributes `(obj, a, x)` and `(obj.a, x, None)`, nothing when `obj.a` is None -/
+def World.dynContribs (w : World) (o : Nat) : List Dep → List Contribution
+  | [] => []
+  | .own _ :: rest => World.dynContribs w o rest
+  | .sub a x :: rest =>
     match w.getVal o a with
-    | some (.obj s) =>
-      let w := (w.touchParam o a).touchParam s x
-      let (c1, w) := mkCaller w o md.name (some [x])
-      let w1 : Watcher := { inst := o, fn := c1, names := [a], precedence := -1 }
-      let w := w.addWatcher w1
-      let (c2, w) := mkCaller w o md.name Option.none
-      let w2 : Watcher := { inst := s, fn := c2, names := [x], precedence := -1 }
-      (w.addWatcher w2, [w1, w2])
-    | _ => (w, [])
+    | some (.obj s) => ⟨o, a, some x⟩ :: ⟨s, x, Option.none⟩ :: World.dynContribs w o rest
+    | _ => World.dynContribs w o rest
+
+def ownDeps : List Dep → List String
+  | [] => []
+  | .own p :: rest => p :: ownDeps rest
+  | .sub _ _ :: rest => ownDeps rest
+
+/-- the objects depended on, in order of first appearance (the keys of `grouped`) -/
+def groupObjs (cs : List Contribution) : List Nat := dedupN (cs.map (·.inst))
+
+/-- `params` of `_watch_group` -/
+def groupNames (cs : List Contribution) (g : Nat) : List String :=
+  dedupS ((cs.filter (·.inst = g)).map (·.name))
+
+/-- `subparams` of `_watch_group`: per parameter name the sub-paths of every dependency of the group, `None`
+as soon as one of them has none -/
+def groupChanged (cs : List Contribution) (g : Nat) : List (String × Option (List String)) :=
+  (groupNames cs g).map fun n =>
+    let subs := (cs.filter (fun c => c.inst = g ∧ c.name = n)).map (·.sub)
+    (n, if subs.any (·.isNone) then Option.none else some (dedupS (subs.filterMap id)))
+
+/-- `inst.param[dep.name]` for every resolved dependency: the per-instance Parameter copies come into being -/
+def World.touchAll (w : World) : List (Nat × String) → World
+  | [] => w
+  | (o, p) :: rest => World.touchAll (w.touchParam o p) rest
+
+/-- one `_watch_group` per object depended on -/
+def World.installGroups (w : World) (o : Nat) (m : String) (cs : List Contribution) : List Nat → World × List Watcher
+  | [] => (w, [])
+  | g :: gs =>
+    let (c, w1) := mkCaller w o m (some (groupChanged cs g))
+    let wt : Watcher := { inst := g, fn := c, names := groupNames cs g, precedence := -1 }
+    let (w2, rest) := World.installGroups (w1.addWatcher wt) o m cs gs
+    (w2, wt :: rest)
+
+/-- the dynamic watchers of one `depends` method of `o`; returned for `dynamic_watchers`
+    -- src: Parameters._update_deps, _watch_group, _resolve_dynamic_deps, _resolve_mcs_deps -/
+def World.installDyn (w : World) (o : Nat) (md : MethodDef) : World × List Watcher :=
+  let cs := w.dynContribs o md.deps
+  World.installGroups (w.touchAll (cs.map fun c => (c.inst, c.name))) o md.name cs (groupObjs cs)
+
+/-- the watcher for the own-parameter dependencies of a method (`init=True` only) -/
+def World.installConst (w : World) (o : Nat) (md : MethodDef) : World :=
+  let ps := dedupS (ownDeps md.deps)
+  if ps.isEmpty then w
+  else
+    let w := w.touchAll (ps.map fun p => (o, p))
+    let (c, w) := mkCaller w o md.name Option.none
+    w.addWatcher { inst := o, fn := c, names := ps, precedence := -1 }
 
 /-- `_update_deps(init=True)` -/
 def World.initDeps (w : World) (o : Nat) : List MethodDef → World
   | [] => w
   | md :: rest =>
-    let (w, dynw) := w.installDep o md
+    let (w, dynw) := (w.installConst o md).installDyn o md
     let w := if dynw.isEmpty then w else w.setObj o fun ob => { ob with dyn := insert ob.dyn md.name dynw }
     World.initDeps w o rest
 
-/-- `_update_deps(attribute)`: rebuild the dynamic watchers of the methods whose path starts at `attribute` -/
+def rootedAt (attr : String) : List Dep → Bool
+  | [] => false
+  | .sub a _ :: rest => a == attr || rootedAt attr rest
+  | .own _ :: rest => rootedAt attr rest
+
+/-- `_update_deps(attribute)`: a method with a dynamic dependency whose path starts at `attribute` loses
+all its dynamic watchers and gets ALL of them rebuilt -/
 def World.updateDeps (w : World) (o : Nat) (attr : String) : List MethodDef → World
   | [] => w
   | md :: rest =>
-    match md.dep with
-    | .sub a _ =>
-      if a = attr then
-        let old := ((w.objs[o]?).bind (fun ob => lookup ob.dyn md.name)).getD []
-        let w := w.setObj o fun ob => { ob with dyn := erase ob.dyn md.name }
-        let w := old.foldl (fun w wt => w.unwatch wt) w
-        let (w, dynw) := w.installDep o md
-        let w := if dynw.isEmpty then w else w.setObj o fun ob => { ob with dyn := insert ob.dyn md.name dynw }
-        World.updateDeps w o attr rest
-      else World.updateDeps w o attr rest
-    | .own _ => World.updateDeps w o attr rest
+    if rootedAt attr md.deps then
+      let old := ((w.objs[o]?).bind (fun ob => lookup ob.dyn md.name)).getD []
+      let w := w.setObj o fun ob => { ob with dyn := erase ob.dyn md.name }
+      let w := old.foldl (fun w wt => w.unwatch wt) w
+      let (w, dynw) := w.installDyn o md
+      let w := if dynw.isEmpty then w else w.setObj o fun ob => { ob with dyn := insert ob.dyn md.name dynw }
+      World.updateDeps w o attr rest
+    else World.updateDeps w o attr rest
 
 /-! ### dispatch -/
 
@@ -281,11 +342,15 @@ def subEq (w : World) (old new : Val) (x : String) : Bool :=
     | _, _ => false
   | _, _ => false
 
-/-- `_call_watcher` + `_sync_caller`: returns the invocation, if the method runs -/
-def callWatcher (w : World) (wt : Watcher) (old new : Val) : Option (Nat × String) :=
+/-- `_call_watcher` + `_sync_caller` for an event on parameter `p`: returns the invocation, if the method
+runs.  `_skip_event`: `changed.get(p)` missing or None -> not skipped -/
+def callWatcher (w : World) (wt : Watcher) (p : String) (old new : Val) : Option (Nat × String) :=
   if valEq w.cells old new then Option.none          -- onlychanged
   else match wt.fn.kind, wt.fn.changed with
-    | .mcaller, some names => if names.all (subEq w old new) then Option.none else some (wt.fn.owner, wt.fn.method)
+    | .mcaller, some d =>
+      match lookup d p with
+      | some (some names) => if names.all (subEq w old new) then Option.none else some (wt.fn.owner, wt.fn.method)
+      | _ => some (wt.fn.owner, wt.fn.method)
     | _, _ => some (wt.fn.owner, wt.fn.method)
 
 /-! ### operations -/
@@ -366,7 +431,7 @@ def doSet (w : World) (o : Nat) (p : String) (a : Arg) : Except Err World :=
           let w := w.setObj o fun ob => { ob with values := insert ob.values p v }
           let w := w.updateDeps o p c.methods
           let ws := sortByPrec (((w.objs[o]?).bind (fun ob => lookup ob.watchers p)).getD [])
-          .ok { w with log := w.log ++ ws.filterMap (fun wt => callWatcher w wt old v) }
+          .ok { w with log := w.log ++ ws.filterMap (fun wt => callWatcher w wt p old v) }
       else .error .unsupported
 
 def doMutate (w : World) (o : Nat) (p : String) (n : Int) : Except Err World :=
@@ -469,21 +534,24 @@ def Policy.redo (pol : Policy) (owner self : Nat) : Bool :=
 
 /-- one iteration of the loop in `__setstate__`; `pid` is the next free caller id
     -- src: parameterized.py Parameterized.__setstate__ (`for watcher in watchers:`) -/
-def rebindWatcher (pol : Policy) (cls : ClassDef) (self : Nat) (wt : Watcher) (pid : Nat) : Except Err (Watcher × Nat) :=
+def rebindWatcher (pol : Policy) (cls : Option ClassDef) (self : Nat) (wt : Watcher) (pid : Nat) : Except Err (Watcher × Nat) :=
   match wt.fn.kind with
   | .mcaller =>
     if pol.redo wt.fn.owner self then
       -- `_m_caller(self, fn._watcher_name)`: `getattr(self, method_name)`, what/changed/callback reset
-      if cls.hasAttr wt.fn.method then
-        .ok ({ wt with inst := self, fn := { kind := .mcaller, owner := self, method := wt.fn.method, changed := Option.none, pid := pid } }, pid + 1)
-      else .error .attributeError
+      match cls with
+      | Option.none => .error .unsupported
+      | some c =>
+        if c.hasAttr wt.fn.method then
+          .ok ({ wt with inst := self, fn := { kind := .mcaller, owner := self, method := wt.fn.method, changed := Option.none, pid := pid } }, pid + 1)
+        else .error .attributeError
     else .ok ({ wt with inst := self }, pid)
   | .bound =>
     -- `elif get_method_owner(fn) is watcher.inst: getattr(self, fn.__name__)`
     if wt.fn.owner = wt.inst then .ok ({ wt with inst := self, fn := { wt.fn with owner := self } }, pid)
     else .ok ({ wt with inst := self }, pid)
 
-def rebindList (pol : Policy) (cls : ClassDef) (self : Nat) : List Watcher → Nat → Except Err (List Watcher × Nat)
+def rebindList (pol : Policy) (cls : Option ClassDef) (self : Nat) : List Watcher → Nat → Except Err (List Watcher × Nat)
   | [], pid => .ok ([], pid)
   | wt :: rest, pid =>
     match rebindWatcher pol cls self wt pid with
@@ -493,7 +561,7 @@ def rebindList (pol : Policy) (cls : ClassDef) (self : Nat) : List Watcher → N
       | .error e => .error e
       | .ok (rest', pid2) => .ok (wt' :: rest', pid2)
 
-def rebindTable (pol : Policy) (cls : ClassDef) (self : Nat) :
+def rebindTable (pol : Policy) (cls : Option ClassDef) (self : Nat) :
     List (String × List Watcher) → Nat → Except Err (List (String × List Watcher) × Nat)
   | [], pid => .ok ([], pid)
   | (p, ws) :: rest, pid =>
@@ -506,12 +574,9 @@ def rebindTable (pol : Policy) (cls : ClassDef) (self : Nat) :
 
 /-- `__setstate__` of the copy `self` (state already copied); only the `watchers` table is rewritten -/
 def setstate (pol : Policy) (classes : List ClassDef) (self : Nat) (ob : Obj) (pid : Nat) : Except Err (Obj × Nat) :=
-  match classes[ob.cls]? with
-  | Option.none => .error .unsupported
-  | some c =>
-    match rebindTable pol c self ob.watchers pid with
-    | .error e => .error e
-    | .ok (t, pid') => .ok ({ ob with watchers := t }, pid')
+  match rebindTable pol classes[ob.cls]? self ob.watchers pid with
+  | .error e => .error e
+  | .ok (t, pid') => .ok ({ ob with watchers := t }, pid')
 
 /-- run `__setstate__` on the copies (index `no + i`) of the objects; a failure on a copy of an
 object that is *reachable from the root* is the failure of the whole copy, the unreachable ones
